@@ -27,23 +27,24 @@ static std::string run(std::vector<std::string> const &w)
 	using namespace cppcms;
 	std::string a;
 	if(w.size()>=2 && !vh::unhex(w[1],a) && w[0]!="encsize" && w[0]!="decsize") return "bad-op";
+	vh::exact_buf xa(a);   // pointer overloads read from a heap block of exactly a.size() bytes
 	// one output path per op; the model maps all of them to the same function and the
 	// property predicate is judged on each path's own output
 	if(w.size()==2 && w[0]=="escape") return vh::hex(util::escape(a));
-	if(w.size()==2 && w[0]=="escape_os") { std::ostringstream ss; util::escape(a.data(),a.data()+a.size(),ss); return vh::hex(ss.str()); }
+	if(w.size()==2 && w[0]=="escape_os") { std::ostringstream ss; util::escape(xa.begin(),xa.end(),ss); return vh::hex(ss.str()); }
 	if(w.size()==2 && w[0]=="escape_flt") { std::ostringstream fs; fs<<filters::escape(a); return vh::hex(fs.str()); }
 	if(w.size()==3 && w[0]=="escapesb") {
 		limited_buf lb(strtoull(w[2].c_str(),0,10));
-		int rc=util::escape(a.data(),a.data()+a.size(),lb);
+		int rc=util::escape(xa.begin(),xa.end(),lb);
 		return vh::hex(lb.data)+(rc==0?" 1":" 0");
 	}
 	if(w.size()==2 && w[0]=="urlencode") return vh::hex(util::urlencode(a));
-	if(w.size()==2 && w[0]=="urlencode_os") { std::ostringstream ss; util::urlencode(a.data(),a.data()+a.size(),ss); return vh::hex(ss.str()); }
-	if(w.size()==2 && w[0]=="urlencode_sb") { limited_buf lb(size_t(1)<<40); int rc=util::urlencode(a.data(),a.data()+a.size(),lb); return vh::hex(lb.data)+(rc==0?" 1":" 0"); }
+	if(w.size()==2 && w[0]=="urlencode_os") { std::ostringstream ss; util::urlencode(xa.begin(),xa.end(),ss); return vh::hex(ss.str()); }
+	if(w.size()==2 && w[0]=="urlencode_sb") { limited_buf lb(size_t(1)<<40); int rc=util::urlencode(xa.begin(),xa.end(),lb); return vh::hex(lb.data)+(rc==0?" 1":" 0"); }
 	if(w.size()==2 && w[0]=="urlencode_flt") { std::ostringstream fs; fs<<filters::urlencode(a); return vh::hex(fs.str()); }
 	if(w.size()==2 && w[0]=="urldecode") {
 		std::string r1=util::urldecode(a);
-		std::string r2=util::urldecode(a.data(),a.data()+a.size());
+		std::string r2=util::urldecode(xa.begin(),xa.end());
 		if(r1!=r2) return "overload-mismatch";
 		return vh::hex(r1);
 	}
@@ -55,17 +56,15 @@ static std::string run(std::vector<std::string> const &w)
 	}
 	if(w.size()==2 && w[0]=="b64enc") return vh::hex(b64url::encode(a));
 	if(w.size()==2 && w[0]=="b64enc_os") {
-		unsigned char const *b=reinterpret_cast<unsigned char const*>(a.data());
-		std::ostringstream ss; b64url::encode(b,b+a.size(),ss); return vh::hex(ss.str());
+		std::ostringstream ss; b64url::encode(xa.ubegin(),xa.uend(),ss); return vh::hex(ss.str());
 	}
 	if(w.size()==2 && w[0]=="b64enc_flt") { std::ostringstream fs; fs<<filters::base64_urlencode(a); return vh::hex(fs.str()); }
 	if(w.size()==2 && w[0]=="b64encraw") {
 		// pointer variant into a heap buffer of exactly the advertised size (ASan red zone behind it)
 		int n=b64url::encoded_size(a.size());
-		std::unique_ptr<unsigned char[]> buf(new unsigned char[n>0?n:1]);
-		unsigned char const *b=reinterpret_cast<unsigned char const*>(a.data());
-		unsigned char *e=b64url::encode(b,b+a.size(),buf.get());
-		return vh::hex(buf.get(),e-buf.get());
+		vh::exact_buf buf(n>0?size_t(n):0);
+		unsigned char *e=b64url::encode(xa.ubegin(),xa.uend(),buf.ubegin());
+		return vh::hex(buf.p,e-buf.ubegin());
 	}
 	if(w.size()==2 && w[0]=="b64dec") {
 		std::string out="prev";
@@ -77,10 +76,9 @@ static std::string run(std::vector<std::string> const &w)
 		// size function reports the length as invalid: recorded in DESIGN.md section 6)
 		int n=b64url::decoded_size(a.size());
 		size_t cap = n>=0 ? size_t(n) : a.size()/4*3+3;
-		std::unique_ptr<unsigned char[]> buf(new unsigned char[cap?cap:1]);
-		unsigned char const *b=reinterpret_cast<unsigned char const*>(a.data());
-		unsigned char *e=b64url::decode(b,b+a.size(),buf.get());
-		return vh::hex(buf.get(),e-buf.get());
+		vh::exact_buf buf(cap);
+		unsigned char *e=b64url::decode(xa.ubegin(),xa.uend(),buf.ubegin());
+		return vh::hex(buf.p,e-buf.ubegin());
 	}
 	if(w.size()==2 && w[0]=="encsize") return std::to_string(b64url::encoded_size(strtoull(w[1].c_str(),0,10)));
 	if(w.size()==2 && w[0]=="decsize") return std::to_string(b64url::decoded_size(strtoull(w[1].c_str(),0,10)));
